@@ -4,6 +4,7 @@
 From Coq Require Import ZArith List Bool.
 From BV Require Import Lib.Cases Model.LaxSem Model.Restart Model.Pool
      Proofs.PoolJobs Proofs.PoolInv Proofs.PoolScan Proofs.PoolTick Proofs.PoolSup Proofs.PoolCor.
+From BV Require Lib.PyVal Gen.G_pool_shape Gen.K_timedout Proofs.PoolKernel.
 Import ListNotations.
 Open Scope Z_scope.
 
@@ -64,6 +65,26 @@ Theorem C05_replacement : forall s s',
     Z.of_nat (length (wlist s')) = Z.max (nprocs s) (Z.of_nat (length (kept s))) /\ nprocs s' = nprocs s.
 Proof. exact tick_size. Qed.
 Print Assumptions C05_replacement.
+
+(* the `_timed_out` test translated from the code on this run is the model's test *)
+Theorem C05_code_timed_out : forall s a b,
+    PoolKernel.res_truth (K_timedout.timed_out tt (PoolKernel.optv a) (PoolKernel.optv b) (PyVal.PInt (now s)))
+    = Pool.timed_out s a b.
+Proof. exact PoolKernel.gen_timed_out_eq. Qed.
+Print Assumptions C05_code_timed_out.
+
+(* the scan iterates a snapshot, decides hard before soft with the job limit taking precedence, never leaves the loop early; the hard handler re-checks readiness and signals the owner; apply_async defaults the limit to the pool's
+   (facts computed from the AST of /repo/billiard/pool.py on this run; see translate/kernels/poolshape.py) *)
+Theorem C05_code_shape :
+  G_pool_shape.scan_iterates_snapshot = true /\
+  G_pool_shape.scan_hard_checked_first = true /\
+  G_pool_shape.scan_job_limit_precedence = true /\
+  G_pool_shape.scan_no_early_exit = true /\
+  G_pool_shape.hard_handler_checks_ready_first = true /\
+  G_pool_shape.hard_handler_kills_owner = true /\
+  G_pool_shape.apply_hard_defaults_to_pool = true.
+Proof. repeat split; reflexivity. Qed.
+Print Assumptions C05_code_shape.
 
 (* non-vacuity, pool of size ONE: limit 5 s, worker lingers on TERM, is KILLed, replaced,
    and the next job is accepted by the replacement and completes *)
